@@ -16,7 +16,7 @@ PI = math.pi
 DPS = 40
 RULE = (
     "Cases: x0 = (p N*10^k k<=3, v N*10^k k<=2, unit q of either sign), specific force a_b N*10^k k<=2, gravity in "
-    "[0, 20], dt in {0} U [1e-4, 5], angular rate = axis*theta/dt with theta = |w|dt forced through {0, denormal, tiny, "
+    "[-20, 20] (either sign convention), dt in {0} U [1e-4, 5], angular rate = axis*theta/dt with theta = |w|dt forced through {0, denormal, tiny, "
     "both series switches to the ulp, (1e-2, pi), pi, (pi, 2pi), (2pi, 150)}; sequences of 1..12 piecewise-constant "
     "steps. Oracle: Van-Loan augmented matrix exponential exp([[W, a, 0],[0,0,1],[0,0,0]] dt) in mpmath at 40 digits "
     "(no numerical integrator). Non-trivial: |w|dt > 0.1, a != 0, v0 != 0; sequences with >= 3 steps; distinct = hash of "
@@ -134,7 +134,7 @@ def inputs(draw, strata=TH_STRATA, allow_dt0=False):
         dt = max(dt, th / 1e3)
         w = [a * th / dt for a in ax]
     return {"a": draw(gens.vector(3, scales=(-2, -1, 0, 0, 1, 1, 2))), "w": w, "theta": th, "stratum": s,
-            "g": draw(st.sampled_from([0.0, 9.8, 9.80665, 20.0])) if draw(st.booleans()) else draw(gens.fl(0.0, 20.0)),
+            "g": draw(st.sampled_from([0.0, 9.8, 9.80665, 20.0, -9.8])) if draw(st.booleans()) else draw(gens.fl(-20.0, 20.0)),
             "dt": dt}
 
 
